@@ -37,12 +37,12 @@ theorem rd32_mid (pre post : Bytes) (v : Nat) (hv : v < 4294967296) : rd32 (pre 
 
 /-- a question stands at `off`: a name (any compression) followed by QTYPE and QCLASS -/
 def QuestionAt (m : Bytes) (off : Nat) (q : Question) (next : Nat) : Prop :=
-  ∃ (ls : List Bytes) (pre post : Bytes), Denotes m off ls pre.length ∧ wire ls ≤ 253 ∧ q.qname = dottedName ls ∧
+  ∃ (ls : List Bytes) (pre post : Bytes), WellFormedName m off ls pre.length ∧ q.qname = dottedName ls ∧
     m = pre ++ (be16 q.qtype ++ be16 q.qclass) ++ post ∧ q.qtype < 65536 ∧ q.qclass < 65536 ∧ next = pre.length + 4
 
 /-- a resource record stands at `off`: owner name (any compression), TYPE, CLASS, TTL, RDLENGTH, RDATA -/
 def RecordAt (m : Bytes) (off : Nat) (rr : RR) (rdOff next : Nat) : Prop :=
-  ∃ (ls : List Bytes) (pre post : Bytes), Denotes m off ls pre.length ∧ wire ls ≤ 253 ∧ rr.name = dottedName ls ∧
+  ∃ (ls : List Bytes) (pre post : Bytes), WellFormedName m off ls pre.length ∧ rr.name = dottedName ls ∧
     m = pre ++ (be16 rr.type ++ be16 rr.cls ++ be32 rr.ttl ++ be16 rr.rdlength ++ rr.rdata) ++ post ∧
     rr.type < 65536 ∧ rr.cls < 65536 ∧ rr.ttl < 4294967296 ∧ rr.rdlength = rr.rdata.length ∧ rr.rdata.length < 65536 ∧
     rdOff = pre.length + 10 ∧ next = pre.length + 10 + rr.rdata.length
@@ -59,8 +59,8 @@ inductive RecordsAt (m : Bytes) : Nat → List (RR × Nat) → Nat → Prop
 
 theorem parseQuestion_exact {m : Bytes} {off : Nat} {q : Question} {next : Nat} (h : QuestionAt m off q next) :
     parseQuestion m off = .ok (q, next) := by
-  obtain ⟨ls, pre, post, hd, hw, hn, hm, ht, hc, hnx⟩ := h
-  have hdec := decodeName_sound m off ls pre.length hd hw
+  obtain ⟨ls, pre, post, hd, hn, hm, ht, hc, hnx⟩ := h
+  have hdec := decodeName_sound m off ls pre.length hd
   have e1 : m = pre ++ be16 q.qtype ++ (be16 q.qclass ++ post) := by rw [hm]; simp [List.append_assoc]
   have e2 : m = (pre ++ be16 q.qtype) ++ be16 q.qclass ++ post := by rw [hm]; simp [List.append_assoc]
   have r1 : rd16 m pre.length = .ok q.qtype := by
@@ -79,8 +79,8 @@ theorem parseQuestion_exact {m : Bytes} {off : Nat} {q : Question} {next : Nat} 
 
 theorem parseRR_exact {m : Bytes} {off : Nat} {rr : RR} {rdOff next : Nat} (h : RecordAt m off rr rdOff next)
     (hval : validateRdata rr = .ok ()) : parseRR m off = .ok (rr, rdOff, next) := by
-  obtain ⟨ls, pre, post, hd, hw, hn, hm, ht, hc, httl, hrl, hrlen, hrd, hnx⟩ := h
-  have hdec := decodeName_sound m off ls pre.length hd hw
+  obtain ⟨ls, pre, post, hd, hn, hm, ht, hc, httl, hrl, hrlen, hrd, hnx⟩ := h
+  have hdec := decodeName_sound m off ls pre.length hd
   have e1 : m = pre ++ be16 rr.type ++ (be16 rr.cls ++ be32 rr.ttl ++ be16 rr.rdlength ++ rr.rdata ++ post) := by
     rw [hm]; simp [List.append_assoc]
   have e2 : m = (pre ++ be16 rr.type) ++ be16 rr.cls ++ (be32 rr.ttl ++ be16 rr.rdlength ++ rr.rdata ++ post) := by
@@ -106,9 +106,11 @@ theorem parseRR_exact {m : Bytes} {off : Nat} {rr : RR} {rdOff next : Nat} (h : 
     have hl : (pre ++ be16 rr.type ++ be16 rr.cls ++ be32 rr.ttl ++ be16 rr.rdlength).length = pre.length + 10 := by simp
     rw [← hl]; exact slice_mid _ _ _
   have hlen : m.length = pre.length + 10 + rr.rdata.length + post.length := by rw [hm]; simp; omega
+  have hcp : copy m (pre.length + 10) rr.rdlength = .ok rr.rdata := by
+    rw [copy_ok (by rw [hlen, hrl]; omega), hsl]
   unfold parseRR
   rw [hdec]
-  simp only [bind, Except.bind, checkBounds, hlen, r1, r2, r3, r4, pure, Except.pure, hsl,
+  simp only [bind, Except.bind, checkBounds, hlen, r1, r2, r3, r4, pure, Except.pure, hcp,
     show ¬ pre.length + 2 > pre.length + 10 + rr.rdata.length + post.length by omega,
     show ¬ pre.length + 2 + 2 > pre.length + 10 + rr.rdata.length + post.length by omega,
     show ¬ pre.length + 4 + 4 > pre.length + 10 + rr.rdata.length + post.length by omega,
